@@ -198,7 +198,9 @@ def run(ctx):
                 if not (isinstance(d, ast.Constant) and isinstance(d.value, bool)):
                     continue
                 g = CFG(f, lambda st: isinstance(st, ast.Raise))
-                tests = {n.id for n in g.nodes if n.kind == "test" and p in names_in(n.ast.test)}
+                tests = {n.id for n in g.nodes if n.kind == "test" and hasattr(n.ast, "test") and p in names_in(n.ast.test)}
+                if any(isinstance(x, ast.Match) for x in ast.walk(f)):
+                    raise AnalysisError(f"{qual}: match statement - the mode dispatch cannot be followed")
                 if not tests:
                     continue
                 ignored = mode_ignored_somewhere(f, p)
